@@ -723,6 +723,32 @@ func (s *DB) getHistoricRootsAndNodes(
 			}
 		}
 	}
+	// Nodes are content-addressed, so a node that a deleted version stops
+	// using may still (or again) be part of a version that is kept.
+	keep := func(m *mast.Mast) error {
+		return m.DiffLinks(ctx, nil, func(removed bool, link interface{}) (bool, error) {
+			if ls, ok := link.(string); ok && !removed {
+				delete(candidateBlocks, ls)
+			}
+			return true, nil
+		})
+	}
+	if err := keep(s.crdt.Mast); err != nil {
+		return nil, nil, err
+	}
+	for name, root := range rootCacheByName {
+		if _, ok := candidateRoots[name]; ok {
+			continue
+		}
+		name := name
+		kept, err := crdt.Load(ctx, s.crdt.Config, &name, *root)
+		if err != nil {
+			return nil, nil, err
+		}
+		if err := keep(kept.Mast); err != nil {
+			return nil, nil, err
+		}
+	}
 	nodes = make([]string, 0, len(candidateBlocks))
 	for k := range candidateBlocks {
 		nodes = append(nodes, k)
